@@ -298,7 +298,7 @@ void World::reset()
 	actors.clear();
 	now = 0; seq = 0; serial = 0; current = nullptr;
 	latency_us = 1000;
-	router = nullptr; on_send = nullptr; on_deliver = nullptr; on_tun_write = nullptr;
+	router = nullptr; on_send = nullptr; on_deliver = nullptr; on_recv = nullptr; on_tun_write = nullptr;
 	on_tun_read = nullptr; on_system = nullptr; on_block = nullptr;
 	residue_mode = 1; residue_byte = 0xA5; residue_data.clear();
 	resumes = 0; resumes_same_time = 0; livelock = false; dropped_no_endpoint = 0;
@@ -568,6 +568,7 @@ static ssize_t do_recv(int fd, void *buf, size_t len, Datagram *out)
 	if (n) memcpy(buf, dg.data.data(), n);
 	fill_residue(buf, n, len);
 	if (out) *out = dg;
+	if (W.on_recv) W.on_recv(dg, i);
 	return (ssize_t)n;
 }
 
